@@ -285,7 +285,7 @@ package nbs
 // ChunkJournal.Update: compare-and-swap on the in-memory contents' lock; the new root is durable in the
 // journal before the in-memory contents change; an error leaves the contents untouched.
 //@ func (*ChunkJournal).Update
-//@   property C02
+//@   property C02 C03
 //@   requires !verif_ghost.jBufRoot && !verif_ghost.jFileRoot && !verif_ghost.jDurableRoot && !verif_ghost.jCommitCalled
 //@   requires j.wr != nil
 //@   ensures  result1 != nil ==> j.contents.lock == old(j.contents.lock) && j.contents.root == old(j.contents.root)
@@ -889,9 +889,16 @@ package nbs
 //@   at call cb: assert arg0:int64 == off && verif_ghost.jValidOK
 //@   at call ReadFull: assert verif_ghost.jValidOK && len(arg1:[]byte) == int(l)
 //@   ensures  err == nil ==> off - offin == verif_ghost.iRead - old(verif_ghost.iRead)
+// a record that failed validation in this scan puts the scan in the recovery state, so that the caller looks for
+// valid records beyond it (damage followed by valid data is reported, not silently cut off)
+//@   ensures  old(verif_ghost.jValidOK) && !verif_ghost.jValidOK ==> recovered
+// a length is rejected as oversized only if no writer can have produced it: getBytes accepts every record of up to
+// journalWriterBuffSize bytes
+//@   at call warningsCb#1: assert l > journalWriterBuffSize
 //@   also_modifies verif_ghost.iRead, verif_ghost.jValidOK
 //@   loop 1
 //@     invariant off - offin == verif_ghost.iRead - old(verif_ghost.iRead) && !recovered && rdr != nil
+//@     invariant old(verif_ghost.jValidOK) ==> verif_ghost.jValidOK
 
 // conjoin: the manifest update that swaps the conjoined table file in is a compare-and-swap on the lock of the
 // upstream contents it was computed from, and carries root, gc generation, format version and appendix over
@@ -942,3 +949,54 @@ package nbs
 //@   nopanic
 //@   requires f != nil && len(f.suffixes) == 12*len(f.prefixes)
 //@   modifies nothing
+
+// readByteSpan: a span taken from a (possibly corrupted) span index never turns into a panic: it is either read or
+// rejected. Archive files are assumed smaller than 2^48 bytes.
+//@ func (*archiveReader).readByteSpan
+//@   property C10
+//@   nopanic
+//@   requires ar != nil && ar.reader != nil && ar.footer.fileSize <= 1<<48
+
+//@ func (*archiveReader).getByteSpanByID
+//@   property C10
+//@   nopanic
+//@   requires ar != nil && ar.indexReader != nil
+//@   modifies nothing
+
+// ---- the manifest never names a missing table file (C05), second round: WHO checks WHAT under WHICH lock
+
+// checkNewSpecsPresent: event marker (which pair of contents was checked) on top of the stat loop
+//@ func checkNewSpecsPresent
+//@   property C05
+//@   trusted Go maps are opaque to the engine (its completeness is the one seeded change C05-m1 that is not detected)
+//@   modifies nothing
+//@   ghost_set verif_ghost.mSpecsOK = (result == nil)
+//@   ghost_set verif_ghost.mSpecsUp = upstream.lock
+//@   ghost_set verif_ghost.mSpecsNew = contents.lock
+
+// the validation callbacks handed to updateWithChecker (which runs them under the lock, against the manifest it just
+// read) accept only after the presence check accepted exactly that pair of contents
+//@ func (fileManifest).Update$3
+//@   property C05
+//@   ensures  result == nil ==> verif_ghost.mSpecsOK && verif_ghost.mSpecsUp == upstream.lock && verif_ghost.mSpecsNew == contents.lock && contents.gcGen == upstream.gcGen
+//@   also_modifies verif_ghost.mSpecsOK, verif_ghost.mSpecsUp, verif_ghost.mSpecsNew
+//@ func (fileManifest).UpdateGCGen$3
+//@   property C05
+//@   ensures  result == nil ==> verif_ghost.mSpecsOK && verif_ghost.mSpecsUp == upstream.lock && verif_ghost.mSpecsNew == contents.lock
+//@   also_modifies verif_ghost.mSpecsOK, verif_ghost.mSpecsUp, verif_ghost.mSpecsNew
+
+// the GC table swap goes through the same locked protocol as an ordinary update
+//@ func (fileManifest).UpdateGCGen
+//@   property C05
+//@   requires !verif_ghost.mTempSynced && !verif_ghost.mValidated && !verif_ghost.mRenamed && !verif_ghost.mDirSynced && !verif_ghost.mLockHeld
+//@   at call updateWithChecker: assert verif_ghost.mLockHeld
+//@   ensures  !verif_ghost.mLockHeld
+
+// LockManifest (used by the grace pruner): the manifest handed out was read AFTER the lock was taken, and the lock is
+// still held on success
+//@ func (fileManifest).LockManifest
+//@   property C05
+//@   requires !verif_ghost.mLockHeld
+//@   at call parseIfExists: assert verif_ghost.mLockHeld
+//@   ensures  result1 == nil ==> verif_ghost.mLockHeld
+//@   ensures  result1 != nil ==> !verif_ghost.mLockHeld
